@@ -87,8 +87,14 @@ def to_python(col, v):
     return one(v)
 
 
-def to_numpy_rows(columns, rows):
-    a = np.zeros(len(rows), dtype=np_dtype(columns, rows))
+def to_numpy_rows(columns, rows, permute=False):
+    """Rows as a record array.  With permute=True the fields come in reverse order and an
+    unrelated extra field leads: fields of a record array are named, their order is the
+    caller's business."""
+    dt = np_dtype(columns, rows)
+    if permute:
+        dt = np.dtype([('zz_extra', '<i4')] + [(n, dt.fields[n][0]) for n in reversed(dt.names)])
+    a = np.zeros(len(rows), dtype=dt)
     for i, row in enumerate(rows):
         for c, v in zip(columns, row):
             k = c['kind']
